@@ -541,6 +541,7 @@ UNIT_ITERATE = Unit(
     "U-iterate", "u_resolver/skeleton.rs",
     items=COMMON + [merge, resolve_once_stub, resolve_iteratively],
     serves=["C02", "C03", "C09", "C19"],
+    carry_facts_into_loops=False,   # this unit's proofs need isolated loops (loop `ensures` clauses, or the solver runs out of resources with the wider context)
     description="asm::resolver::resolve_iteratively: the fixed-point driver, verified against resolve_once's contract (which U-resolver proves, except the ghost event clause [confirms])",
 )
 
